@@ -60,6 +60,21 @@ def check(run):
                 # what an input contains is taken from the INDEPENDENT parse, not from the library's reader
                 if data and lg.startswith("S F{") and " EOF #" in lg:
                     pool.append({"data": data, "dump": lg[2:].split(" #")[0]})
+        # files as other writers may produce them: tables holding a value twice (references spread over both copies) and
+        # equivalent re-encodings; what they contain is again taken from the independent reader
+        import foreign
+        extra = []
+        for f in pool[:(40 if quick else 400)]:
+            d2, nd = foreign.dup_table_entries(f["data"], rng)
+            if nd:
+                extra.append(d2)
+            top, _ = cborgen.parse(f["data"])
+            extra.append(cborgen.encode(top, rng, rng.choice([0.1, 0.4]), cborgen.unknown_member if rng.random() < 0.5 else None))
+        if extra and run.driver_ok:
+            for d2, lg in zip(extra, G.run_driver(["cdns " + d.hex() for d in extra])):
+                if lg and lg.startswith("S F{") and " EOF #" in lg:
+                    pool.append({"data": d2, "dump": lg[2:].split(" #")[0]})
+                    run.count("pool: foreign-writer file")
         cases = []
         for t in range(ntuples):
             members = []
